@@ -23,54 +23,90 @@ def one_core(ctx: RuleCtx, mod: Module, cls: str) -> T.Optional[str]:
         if dunder not in meths:
             raise Undecided(f'{cls}.{dunder} not defined (total_ordering or inherited?)')
         fn = meths[dunder]
-        tab = tables.extract(fn, name=f'{cls}.{dunder}')
+        tab = tables.extract(normalise(fn), inline=False, name=f'{cls}.{dunder}')
         good = 0
         for r in tab.rows:
             isinst = [(a, v) for a, v in r.conds.items() if a.kind == 'isinstance' and a.args[0] == 'ARG1']
             if r.outcome == ('return', 'NotImplemented'):
                 continue
             if r.outcome[0] != 'return':
-                ctx.violation(mod, f'{cls}.{dunder}', r.path.events[-1].node if r.path.events else fn, f'{dunder} can leave by {r.outcome}')
+                if r.outcome[0] == 'raise':
+                    raise Undecided(f'{cls}.{dunder}: a row raises {r.outcome}')
+                ctx.violation(mod, f'{cls}.{dunder}', r.path.events[-1].node if r.path.events else fn, f'{dunder} can leave by {r.outcome} (returns None instead of a verdict)')
                 continue
             ret = ast.parse(r.outcome[1], mode='eval').body
             if not (isinstance(ret, ast.Call) and isinstance(ret.func, ast.Attribute) and attr_chain(ret.func.value) == 'self'):
                 raise Undecided(f'{cls}.{dunder}: comparison result is not a call of a core method: {r.outcome[1]}')
             cores.add(ret.func.attr)
-            ops = [attr_chain(a) for a in ret.args if (attr_chain(a) or '').startswith('operator.')]
+            actual = list(ret.args) + [k.value for k in ret.keywords if k.arg is not None]      # positional or keyword: same operands
+            if any(isinstance(a, ast.Starred) for a in ret.args) or any(k.arg is None for k in ret.keywords):
+                raise Undecided(f'{cls}.{dunder}: cannot bind the arguments of {r.outcome[1]}')
+            ops = [attr_chain(a) for a in actual if (attr_chain(a) or '').startswith('operator.')]
+            if not ops:
+                raise Undecided(f'{cls}.{dunder}: no operator.* function among the arguments of {r.outcome[1]}')
             ctx.require(ops == [f'operator.{op}'], f'{cls}.{dunder} passes operator.{op} to the core', mod, f'{cls}.{dunder}', ret,
                         f'{dunder} must compare with operator.{op}, passes {ops}')
-            firsts = [a for a in ret.args if not (attr_chain(a) or '').startswith('operator.')]
-            ctx.require(len(firsts) == 1 and 'ARG1' in names_in(firsts[0]), f'{cls}.{dunder} passes the other operand', mod, f'{cls}.{dunder}',
-                        ret, f'{dunder} does not hand the other operand to the core')
+            firsts = [a for a in actual if not (attr_chain(a) or '').startswith('operator.')]
+            if len(firsts) != 1:
+                raise Undecided(f'{cls}.{dunder}: cannot tell the operand from the comparator in {r.outcome[1]}')
+            ctx.require('ARG1' in names_in(firsts[0]), f'{cls}.{dunder} passes the other operand', mod, f'{cls}.{dunder}',
+                        ret, f'{dunder} hands `{norm(firsts[0])}` to the core, not the other operand')
             good += 1
             if not any(v for a, v in isinst):
                 ctx.note(f'{cls}.{dunder}: a comparing row is not guarded by isinstance(other, {cls})')
         if not good:
             ctx.violation(mod, f'{cls}.{dunder}', fn, f'{dunder} never compares')
     ctx.require(len(cores) == 1, f'{cls}: one comparison core {sorted(cores)}', mod, cls, cls, f'ordering dunders use different cores: {sorted(cores)}')
-    # equality / hash read the same field
-    fields: T.Dict[str, T.Set[str]] = {}
-    for name in ('__eq__', '__ne__', '__hash__'):
-        if name not in meths:
-            continue
-        fs = set()
-        for n in ast.walk(meths[name]):
-            if isinstance(n, ast.Attribute) and isinstance(n.value, ast.Name) and n.value.id in ('self', 'other'):
-                fs.add(n.attr)
-        fields[name] = fs
-    if '__eq__' not in fields:
+    # equality / hash are decided on the same single field (read from the decision tables, so `not self == other`,
+    # a renamed parameter or an early `return NotImplemented` guard make no difference)
+    if '__eq__' not in meths:
         raise Undecided(f'{cls}.__eq__ not defined')
-    for name, fs in fields.items():
-        ctx.require(fs == fields['__eq__'] and len(fs) == 1, f'{cls}.{name} reads exactly field {sorted(fields["__eq__"])}', mod, f'{cls}.{name}',
-                    meths[name], f'{name} reads {sorted(fs)} but __eq__ reads {sorted(fields["__eq__"])}')
-    # __eq__ True <-> fields equal; __ne__ is its negation
-    for name, want in (('__eq__', ast.Eq), ('__ne__', ast.NotEq)):
+
+    def eq_atoms(row: tables.Row) -> T.List[T.Tuple[T.Optional[str], bool]]:
+        out: T.List[T.Tuple[T.Optional[str], bool]] = []
+        for a, v in row.conds.items():
+            if a.kind == 'cmp' and a.args[0] == 'eq':
+                x, y = sorted(a.args[1:])
+                if (x, y) == ('ARG1', 'self'):
+                    out.append((None, v))                   # delegates to the other equality operator
+                elif x.startswith('ARG1.') and y.startswith('self.') and x[5:] == y[5:]:
+                    out.append((x[5:], v))
+        return out
+    field: T.Optional[str] = None
+    for name, positive in (('__eq__', True), ('__ne__', False)):
         if name not in meths:
             continue
-        cmps = [n for n in ast.walk(meths[name]) if isinstance(n, ast.Compare) and len(n.ops) == 1
-                and {attr_chain(n.left) or '', attr_chain(n.comparators[0]) or ''} == {f'self.{next(iter(fields["__eq__"]))}', f'other.{next(iter(fields["__eq__"]))}'}]
-        ctx.require(len(cmps) == 1 and isinstance(cmps[0].ops[0], want), f'{cls}.{name} compares the field with {want.__name__}', mod,
-                    f'{cls}.{name}', meths[name], f'{name} does not compare the key field with {want.__name__}')
+        tab = tables.extract(normalise(meths[name]), inline=False, bool_returns=True, name=f'{cls}.{name}')
+        n = 0
+        for r in tab.rows:
+            if r.outcome == ('return', 'NotImplemented'):
+                continue
+            if r.outcome not in (('return', 'True'), ('return', 'False')):
+                raise Undecided(f'{cls}.{name}: cannot read the result of row {r!r}')
+            eqs = eq_atoms(r)
+            if len(eqs) != 1:
+                raise Undecided(f'{cls}.{name}: row {r!r} does not test the equality of exactly one field')
+            f, holds = eqs[0]
+            if f is None:
+                if name == '__eq__':
+                    raise Undecided(f'{cls}.__eq__ delegates to another operator')
+            elif field is None:
+                field = f
+            else:
+                ctx.require(f == field, f'{cls}.{name} compares field {field}', mod, f'{cls}.{name}', meths[name],
+                            f'{name} compares field {f} but __eq__ compares {field}')
+            n += 1
+            ctx.require((r.outcome[1] == 'True') == (holds == positive), f'{cls}.{name}: {"equal" if holds else "different"} fields -> {holds == positive}', mod,
+                        f'{cls}.{name}', r.path.events[-1].node if r.path.events else meths[name],
+                        f'{name} returns {r.outcome[1]} when the key fields are {"equal" if holds else "different"}')
+        if not n:
+            raise Undecided(f'{cls}.{name}: no row compares the key field')
+    if '__hash__' in meths and field is not None:
+        fs = {n.attr for n in ast.walk(meths['__hash__']) if isinstance(n, ast.Attribute) and isinstance(n.value, ast.Name) and n.value.id == 'self'}
+        if not fs:
+            raise Undecided(f'{cls}.__hash__: cannot see which field is hashed')
+        ctx.require(fs == {field}, f'{cls}.__hash__ reads exactly field {field}', mod, f'{cls}.__hash__', meths['__hash__'],
+                    f'__hash__ reads {sorted(fs)} but __eq__ compares {field}')
     if meths.get('__hash__') is None and '__hash__' in [s.targets[0].id for s in mod.cls(cls).body if isinstance(s, ast.Assign) and isinstance(s.targets[0], ast.Name)]:
         ctx.note(f'{cls}: unhashable by declaration')
     return next(iter(cores)) if len(cores) == 1 else None
@@ -102,6 +138,34 @@ class _Side(ast.NodeTransformer):
             self.seen.add(self.sides[n.id])
             return ast.Name(id='@', ctx=ast.Load())
         return n
+
+
+def core_method(mod: Module, cls: str, core: str) -> T.Tuple[str, T.Any]:
+    """(method name, *normalised* function) of the comparison core: locals are resolved by their reaching
+    definition, so a hoisted `mine = self._v` reads as `self._v` again."""
+    meths = mod.methods(cls)
+    name = core if core in meths else f'_{cls}{core}' if f'_{cls}{core}' in meths else core
+    if name not in meths:
+        raise Undecided(f'{cls}.{core} not found')
+    return name, normalise(meths[name])
+
+
+def zip_operands(mod: Module, cls: str, core: str) -> T.Tuple[str, str, str]:
+    """(own field chain `self.<field>`, text of the other operand, name of the `other` parameter) of the
+    component loop `for a, b in zip(<own>, <theirs>)` of the core, read on the normalised core."""
+    name, fn = core_method(mod, cls, core)
+    params = [a.arg for a in fn.args.args]
+    if len(params) != 3:
+        raise Undecided(f'{cls}.{name}: expected (self, other, comparator)')
+    other = params[1]
+    loops = [s for s in fn.body if isinstance(s, ast.For)]
+    if len(loops) != 1 or not (isinstance(loops[0].iter, ast.Call) and norm(loops[0].iter.func) == 'zip' and len(loops[0].iter.args) == 2):
+        raise Undecided(f'{cls}.{name}: component loop is not `for a, b in zip(x, y)`')
+    own = [attr_chain(a) for a in loops[0].iter.args if 'self' in names_in(a) and other not in names_in(a)]
+    theirs = [norm(a) for a in loops[0].iter.args if other in names_in(a) and 'self' not in names_in(a)]
+    if len(own) != 1 or own[0] is None or not own[0].startswith('self.') or len(theirs) != 1:
+        raise Undecided(f'{cls}.{name}: cannot attribute the zip operands')
+    return own[0], theirs[0], other
 
 
 def ranking_keys(ctx: RuleCtx, mod: Module, cls: str, core: str) -> T.List[T.Tuple[str, str]]:
@@ -141,8 +205,7 @@ def ranking_keys(ctx: RuleCtx, mod: Module, cls: str, core: str) -> T.List[T.Tup
 
     def key_of(call: ast.AST, where: str) -> T.Optional[T.Tuple[str, str]]:
         if not (isinstance(call, ast.Call) and norm(call.func) in (comparator, 'ARG2') and len(call.args) == 2):
-            ctx.violation(mod, qn, call, f'{where}: result is not comparator(x, y)')
-            return None
+            raise Undecided(f'{qn}: {where}: cannot read the result {short(call)} as comparator(x, y)')
         a, b = copy.deepcopy(call.args[0]), copy.deepcopy(call.args[1])
         sa, sb = _Side(sides), _Side(sides)
         ta, tb = norm(sa.visit(a)), norm(sb.visit(b))
@@ -156,34 +219,37 @@ def ranking_keys(ctx: RuleCtx, mod: Module, cls: str, core: str) -> T.List[T.Tup
         return ta, ('asc' if sa.seen == {'ours'} else 'desc')
 
     keys: T.List[T.Tuple[str, str]] = []
+    key_atoms: T.List[tables.Atom] = []
     tab = tables.extract(fn, body=loop.body, name=qn + ':loop')
     for r in tab.rows:
         if r.outcome[0] in ('fall', 'continue'):
             continue
         if r.outcome[0] != 'return':
-            ctx.violation(mod, qn, r.path.events[-1].node, f'loop row leaves by {r.outcome}')
-            continue
-        k = key_of(ast.parse(r.outcome[1], mode='eval').body, f'loop row {r!r}'[:150])
+            raise Undecided(f'{qn}: a loop row leaves by {r.outcome}')
+        call = ast.parse(r.outcome[1], mode='eval').body
+        k = key_of(call, f'loop row {r!r}'[:150])
         if k is None:
             continue
-        # the guard of the row must be the inequality of the same projection
-        true_atoms = [(a, v) for a, v in r.conds.items()]
-        last_atom, last_val = true_atoms[-1] if true_atoms else (None, None)
-        guard_ok = False
-        if last_atom is not None and last_atom.kind == 'cmp' and last_atom.args[0] == 'eq' and last_val is False:
-            ga, gb = (ast.parse(x, mode='eval').body for x in last_atom.args[1:])
-            s1, s2 = _Side(sides), _Side(sides)
-            t1, t2 = norm(s1.visit(ga)), norm(s2.visit(gb))
-            guard_ok = t1 == t2 == k[0] and s1.seen != s2.seen
-        ctx.require(guard_ok, f'{qn}: key {k[0]} is returned exactly when the two projections differ', mod, qn, r.path.events[-1].node,
-                    f'the row returning the {k[0]} comparison is not guarded by `{k[0]}(ours) != {k[0]}(theirs)`: {r!r}')
-        # earlier keys must be known equal on this row
-        for pk, _ in keys:
-            eq_known = any(a.kind == 'cmp' and a.args[0] == 'eq' and v is True and
-                           norm(_Side(sides).visit(ast.parse(a.args[1], mode='eval').body)) == pk for a, v in r.conds.items())
-            ctx.require(eq_known, f'{qn}: key {k[0]} is consulted only when {pk} is equal', mod, qn, r.path.events[-1].node,
-                        f'key {k[0]} is compared although the earlier key {pk} may differ')
-        keys.append(k)
+        # the atom "the two projections are equal", and every consistent world of the table's atoms (ordering trichotomy etc.)
+        e_atom = tables.canon(ast.Compare(left=call.args[0], ops=[ast.Eq()], comparators=[call.args[1]]), True)[0]   # type: ignore[attr-defined]
+        fires_equal: T.Optional[T.Dict[tables.Atom, bool]] = None
+        fires_early: T.Optional[T.Dict[tables.Atom, bool]] = None
+        early_key = ''
+        for w in tab.worlds([e_atom] + key_atoms):
+            if r not in tab.fire(w):
+                continue
+            if w.get(e_atom):
+                fires_equal = w
+            for (pk, _), pa in zip(keys, key_atoms):
+                if pa != e_atom and w.get(pa) is False:
+                    fires_early, early_key = w, pk
+        ctx.require(fires_equal is None, f'{qn}: key {k[0]} is returned exactly when the two projections differ', mod, qn, r.path.events[-1].node,
+                    f'the row returning the {k[0]} comparison is also taken when {k[0]}(ours) == {k[0]}(theirs) (the loop stops at the first component): {r!r}')
+        ctx.require(fires_early is None, f'{qn}: key {k[0]} is consulted only when the earlier keys are equal', mod, qn, r.path.events[-1].node,
+                    f'key {k[0]} is compared although the earlier key {early_key} may differ: {r!r}')
+        if k not in keys:
+            keys.append(k)
+            key_atoms.append(e_atom)
     after = fn.body[fn.body.index(loop) + 1:]
     rets = [s for s in after if isinstance(s, ast.Return)]
     if len(rets) != 1 or len(after) != 1:
